@@ -43,6 +43,10 @@ func (ups *Socket) Connect(manager cert.TlsConfig, mustSecure bool) error {
 		if tlsConfig, err = manager.GetTlsConfig(); err != nil {
 			return errors.Wrapf(err, "Could not configure TLS")
 		}
+		if tlsConfig.ServerName == "" {
+			// tls.Dial would otherwise derive the name from the resolved address (an IP)
+			tlsConfig.ServerName = a.Hostname()
+		}
 		a.Scheme = addr.PlusEnd.ReplaceAllString(a.Scheme, "")
 		log.Debugf("Dialing TLS %s", a.String())
 
